@@ -350,7 +350,7 @@ func bmpOf(pw []rune) []byte {
 func TestC21(t *testing.T) {
 	m := mon.New(t, "C21")
 	defer m.Done()
-	m.Rule("streams: (openssl) the OpenSSL 3.0 CLI generates RSA-2048/P-256 keys with certificates and exports legacy PFX files (PBE-SHA1-RC2-40 / PBE-SHA1-3DES in both roles, HMAC-SHA1, -iter {1,2,2048,4096, random 1..4096}, -nomaciter, -name) under passwords of 0..40 characters from ASCII, Latin-1, CJK, BMP edge code points and mixtures (via -passout file:); each file is first opened with the harness' own reference stack (RFC 7292 App. B KDF + 3DES/RC2 + HMAC) — disagreement there is an oracle conflict — then pkcs12.Decode and ToPEM must return exactly that key (Equal) and certificate (DER), a derived wrong password must give ErrIncorrectPassword from both, and a non-BMP password must give an error; (crafted) PFX files assembled by the harness (own DER writer, reference KDF) sweep what the CLI cannot: salt lengths 0..200 around the 64-octet block, password lengths around the block, iterations 1..4096, both empty-password conventions (BMP 0x0000 and empty octet string), NUL and noncharacter code points, omitted DEFAULT mac iterations, all four PBE algorithm assignments; a sample is read back by OpenSSL; (padding) crafted files whose PKCS#7 padding is wrong (0, > 8, inconsistent octets) on either bag must yield an error; (mutations) fault enumeration over three crafted base files at four layers — L0 raw file octets, L1 AuthenticatedSafe octets with the MAC recomputed, L2c certificate SafeContents plaintext re-encrypted and re-MACed, L2k PKCS#8 plaintext likewise — each octet × {xor 1, xor 0x80, set 0, set 0xff} plus every truncation, plus random 2-4 octet mutations, plus sampled L0 mutations of an OpenSSL-made file: Decode and ToPEM must return (value or error), never panic; every strict prefix of a file must be an error. distinct key = (stream, key type, password class, length classes, algorithms) resp. (base, layer, op, outcome class); non-trivial = the file was opened by the reference stack or built by it, and the result was judged. Cross-cutting monitors: the last 12 results (certificate Raw bytes, private key, PEM block bytes) are re-verified after every later call; the PFX octets carry sentinel spare capacity and must be unchanged after every call")
+	m.Rule("streams: (openssl) the OpenSSL 3.0 CLI generates RSA-2048/P-256 keys with certificates and exports legacy PFX files (PBE-SHA1-RC2-40 / PBE-SHA1-3DES in both roles, HMAC-SHA1, -iter {1,2,2048,4096, random 1..4096}, -nomaciter, -name) under passwords of 0..40 characters from ASCII, Latin-1, CJK, BMP edge code points and mixtures (via -passout file:); each file is first opened with the harness' own reference stack (RFC 7292 App. B KDF + 3DES/RC2 + HMAC) — disagreement there is an oracle conflict — then pkcs12.Decode and ToPEM must return exactly that key (Equal) and certificate (DER), a derived wrong password must give ErrIncorrectPassword from both, and a non-BMP password must give an error; (crafted) PFX files assembled by the harness (own DER writer, reference KDF) sweep what the CLI cannot: salt lengths 0..200 around the 64-octet block, password lengths around the block, iterations 1..4096, both empty-password conventions (BMP 0x0000 and empty octet string), NUL and noncharacter code points, omitted DEFAULT mac iterations, all four PBE algorithm assignments; a sample is read back by OpenSSL; (padding) crafted files whose PKCS#7 padding is wrong (0, > 8, inconsistent octets) on either bag must yield an error; (mutations) fault enumeration over three crafted base files at four layers — L0 raw file octets, L1 AuthenticatedSafe octets with the MAC recomputed, L2c certificate SafeContents plaintext re-encrypted and re-MACed, L2k PKCS#8 plaintext likewise — each octet × {xor 1, xor 0x80, set 0, set 0xff} plus every truncation, plus random 2-4 octet mutations, plus sampled L0 mutations of an OpenSSL-made file: Decode and ToPEM must return (value or error), never panic; every strict prefix of a file must be an error. distinct key = (stream, key type, password class, length classes, algorithms) resp. (base, layer, op, outcome class); non-trivial = the file was opened by the reference stack or built by it, and the result was judged. (concurrent) 6 goroutines released from a barrier call Decode, ToPEM and Decode-with-a-wrong-password — three on the very same PFX slice and password, three on their own crafted files; results judged after the join; one case in four under GOMAXPROCS(1); the same stream alone is run in a -race build. Cross-cutting monitors: the last 12 results (certificate Raw bytes, private key, PEM block bytes) are re-verified after every later call; the PFX octets carry sentinel spare capacity and must be unchanged after every call")
 	m.Assume("ref/pkcs12kdf is validated against OpenSSL's PKCS12KDF provider in its unit test and, in every openssl-stream case here, by opening OpenSSL's file; 3DES comes from the Go standard library (a primitive pkcs12 uses too), RC2 from nettle, HMAC-SHA1 and X.509/PKCS#8 parsing from the Go standard library; OpenSSL 3.0 with the legacy provider is the interoperability witness")
 	m.Assume("success on a mutated file is accepted (the statement demands error-not-panic only); trailing garbage after the PFX and unknown attributes are observed, not judged")
 
@@ -362,6 +362,14 @@ func TestC21(t *testing.T) {
 	}
 
 	c21Ret = newRetMon(m, 12)
+	if mon.RaceBuild {
+		// race-detector variant: only the shared-value concurrency stream
+		c21Concurrent(m, rsaFix, ecFix)
+		concGates(m, c21ConcN(m))
+		return
+	}
+	c21Concurrent(m, rsaFix, ecFix)
+	concGates(m, c21ConcN(m))
 	c21OpenSSL(m)
 	c21Crafted(m, rsaFix, ecFix)
 	c21Padding(m, rsaFix, ecFix)
